@@ -6,6 +6,7 @@ import (
 	"encoding/json"
 	"fmt"
 	"io"
+	"reflect"
 	"strconv"
 	"strings"
 	"time"
@@ -31,9 +32,9 @@ const (
 	schemaOK     = `{"input":{"type":"object"},"output":{"type":"object"}}`
 	schemaBad    = `{"input":1}`
 	inputOK      = `{"header":{}}`
-	inputBad     = `{"body":{}}`
+	inputBad     = `{"header":1,"body":2}`
 	outValid     = `{"header":{}}`
-	outMalformed = `{"body":{}}`
+	outMalformed = `{"header":1,"body":2}` // two schema violations at once: any dependence on which one a validator reports first shows
 	optionsText  = `{}`
 
 	// synthetic events emitted by the recording callbacks so that their
@@ -62,6 +63,7 @@ type StepResult struct {
 	Detail  string   // error name or panic text
 	Effects []string // E lines (only when Class == ok)
 	Answers []string // Q / G lines of the query and genesis ops (SPEC.md §4), sorted
+	Digest  string   // SHA-256 of the raw service store after the step (printed after END as a `# digest` line)
 	State   []string // sorted state lines
 }
 
@@ -99,6 +101,9 @@ func (r *StepResult) WriteBlock(w io.Writer) error {
 		b.WriteString(s + "\n")
 	}
 	b.WriteString("END\n")
+	if r.Digest != "" {
+		b.WriteString("# digest " + r.Digest + "\n")
+	}
 	_, err := io.WriteString(w, b.String())
 	return err
 }
@@ -304,6 +309,7 @@ func (s *Sim) Step(line string) (*StepResult, error) {
 		res.Effects = translateEvents(events, s.issueOrderOK)
 	}
 	res.State = s.dumpState()
+	res.Digest = s.storeDigest()
 	return res, nil
 }
 
@@ -393,8 +399,14 @@ func (s *Sim) genesis(op *Op) error {
 			return fmt.Errorf("genesis: %s=%x but authtypes.NewModuleAddress gives %x", c.name, []byte(c.got), []byte(c.want))
 		}
 	}
-	if err := params.Validate(); err != nil {
-		return fmt.Errorf("genesis: invalid params: %v", err)
+	// a legal parameter set is what the chain itself admits: the per-parameter validators that the params subspace
+	// applies on every update (not types.Params.Validate, which only the genesis validation calls — whether that one
+	// accepts every such set is part of C19 and is observed by the `validate` op)
+	for _, pair := range params.ParamSetPairs() {
+		v := reflect.Indirect(reflect.ValueOf(pair.Value)).Interface()
+		if err := pair.ValidatorFn(v); err != nil {
+			return fmt.Errorf("genesis: invalid params: %s: %v", pair.Key, err)
+		}
 	}
 
 	s.app = simapp.Setup(false)
